@@ -1052,6 +1052,9 @@ func (g *sg) mesh(maxVerts int, allowEmpty bool) meshInfo {
 	if g.r.Intn(4) == 0 {
 		o.MaxVerts = 4
 	}
+	if g.r.Intn(8) == 0 {
+		o.ValueClass = "residue"
+	}
 	return g.meshFrom(o)
 }
 
